@@ -22,6 +22,7 @@ import (
 	"go/ast"
 	"go/printer"
 	"go/token"
+	"sort"
 	"strings"
 )
 
@@ -299,6 +300,75 @@ func emitCoreShape(repo string) (string, error) {
 		}
 		b.WriteString(" ].\n")
 	}
+	// every function of the package that moves a message between a channel's sets or into a
+	// queue: which of the pop / push primitives it calls (by method name)
+	touch := map[string]bool{"popInFlightMessage": true, "popDeferredMessage": true,
+		"pushInFlightMessage": true, "pushDeferredMessage": true, "addToInFlightPQ": true, "addToDeferredPQ": true,
+		"put": true, "StartDeferredTimeout": true, "StartInFlightTimeout": true, "writeMessageToBackend": true,
+		"PutMessage": true, "PutMessages": true, "PutMessageDeferred": true}
+	type touchEntry struct {
+		name  string
+		calls []string
+	}
+	var touches []touchEntry
+	for _, fn := range p.fileNames() {
+		for _, d := range p.files[fn].Decls {
+			fd, ok := d.(*ast.FuncDecl)
+			if !ok || fd.Body == nil {
+				continue
+			}
+			name := fd.Name.Name
+			if fd.Recv != nil && len(fd.Recv.List) > 0 {
+				t := fd.Recv.List[0].Type
+				if st, ok := t.(*ast.StarExpr); ok {
+					t = st.X
+				}
+				if id, ok := t.(*ast.Ident); ok {
+					name = id.Name + "_" + name
+				}
+			}
+			seen := map[string]bool{}
+			ast.Inspect(fd.Body, func(x ast.Node) bool {
+				c, ok := x.(*ast.CallExpr)
+				if !ok {
+					return true
+				}
+				last := ""
+				switch f := c.Fun.(type) {
+				case *ast.SelectorExpr:
+					last = f.Sel.Name
+				case *ast.Ident:
+					last = f.Name
+				}
+				if touch[last] {
+					seen[last] = true
+				}
+				return true
+			})
+			if len(seen) == 0 {
+				continue
+			}
+			var cs []string
+			for c := range seen {
+				cs = append(cs, c)
+			}
+			sort.Strings(cs)
+			touches = append(touches, touchEntry{name, cs})
+		}
+	}
+	sort.Slice(touches, func(i, j int) bool { return touches[i].name < touches[j].name })
+	b.WriteString("\n(* every function of package nsqd that calls a pop / push / put primitive, with the ones it calls *)\nDefinition core_touches : list (string * list string) :=\n  [ ")
+	for i, t := range touches {
+		if i > 0 {
+			b.WriteString("\n  ; ")
+		}
+		var qs []string
+		for _, c := range t.calls {
+			qs = append(qs, shapeStr(c))
+		}
+		fmt.Fprintf(&b, "(%s, [%s])", shapeStr(t.name), strings.Join(qs, "; "))
+	}
+	b.WriteString(" ].\n")
 	b.WriteString("\nDefinition core_shapes : list (string * list string) :=\n  [ ")
 	for i, n := range names {
 		if i > 0 {
